@@ -122,8 +122,7 @@ func (s *JavaAPIListener) EnterAnnotation(ctx *parser.AnnotationContext) {
 				addApiMethod(pair.ElementValue().GetText())
 			}
 			if pair.Identifier().GetText() == "value" {
-				text := pair.ElementValue().GetText()
-				currentRestAPI.Uri = baseApiUrl + text[1:len(text)-1]
+				currentRestAPI.Uri = baseApiUrl + trimQuote(pair.ElementValue().GetText())
 			}
 		}
 	}
@@ -137,17 +136,23 @@ func buildBaseApiUrlString(annotationName string, ctx *parser.AnnotationContext)
 			for _, valuePair := range allValuePair {
 				pair := valuePair.(*parser.ElementValuePairContext)
 				if pair.Identifier().GetText() == "value" {
-					text := pair.ElementValue().GetText()
-					baseApiUrl = text[1 : len(text)-1]
+					baseApiUrl = trimQuote(pair.ElementValue().GetText())
 				}
 			}
 		} else if ctx.ElementValue() != nil {
-			text := ctx.ElementValue().GetText()
-			baseApiUrl = text[1 : len(text)-1]
+			baseApiUrl = trimQuote(ctx.ElementValue().GetText())
 		} else {
 			baseApiUrl = "/"
 		}
 	}
+}
+
+// trimQuote removes the first and the last character of a quoted literal; a shorter text (a constant name) is kept.
+func trimQuote(text string) string {
+	if len(text) < 2 {
+		return text
+	}
+	return text[1 : len(text)-1]
 }
 
 func addApiMethod(annotationName string) {
@@ -258,8 +263,10 @@ func filterMethodCall(blockContext antlr.Tree) {
 }
 
 func buildRestApiWithParameters(ctx *parser.MethodDeclarationContext) {
-	parameterList := ctx.FormalParameters().GetChild(1).(*parser.FormalParameterListContext)
-	formalParameter := parameterList.AllFormalParameter()
+	var formalParameter []parser.IFormalParameterContext
+	if parameterList, ok := ctx.FormalParameters().GetChild(1).(*parser.FormalParameterListContext); ok {
+		formalParameter = parameterList.AllFormalParameter()
+	}
 	for _, param := range formalParameter {
 		paramContext := param.(*parser.FormalParameterContext)
 
@@ -268,8 +275,8 @@ func buildRestApiWithParameters(ctx *parser.MethodDeclarationContext) {
 		for _, modifier := range modifiers {
 			childType := reflect.TypeOf(modifier.GetChild(0))
 			if childType.String() == "*parser.AnnotationContext" {
-				qualifiedName := modifier.GetChild(0).(*parser.AnnotationContext).QualifiedName().GetText()
-				if qualifiedName == "RequestBody" {
+				annotationCtx := modifier.GetChild(0).(*parser.AnnotationContext)
+				if annotationCtx.QualifiedName() != nil && annotationCtx.QualifiedName().GetText() == "RequestBody" {
 					hasRequestBody = true
 				}
 			}
